@@ -26,7 +26,7 @@ def fresh_state_names(rng, n, special_p=0.08, style=None, setlike_p=0.04):
             elif style == 's':
                 nm = 's%d' % i
             elif style == 'digits':
-                nm = str(rng.randrange(0, 50))
+                nm = str(rng.randrange(0, max(50, 4 * n)))
             else:
                 nm = ''.join(rng.choice(_ALNUM) for _ in range(rng.randrange(1, 5)))
             if nm not in used:
